@@ -258,13 +258,13 @@ func runParCase(r *vrun.Run, c parCase) {
 			return
 		}
 		// all actions finished? (bounded wait; the count decides, never the clock)
-		for i := 0; i < 20_000 && finished.Load() < int64(c.N); i++ {
+		for i := 0; i < 2_000 && finished.Load() < int64(c.N); i++ {
 			time.Sleep(500 * time.Microsecond)
 		}
 		out.finished = finished.Load()
 		if out.finished == int64(c.N) {
 			ok := false
-			for i := 0; i < 4_000; i++ {
+			for i := 0; i < 1_000; i++ {
 				if runtime.NumGoroutine() <= baseline {
 					ok = true
 					break
